@@ -64,6 +64,22 @@ pub struct Arena {
 }
 
 impl Arena {
+    /// Keep any value alive until the arena is cleared and hand out a reference to it.
+    pub fn put_any<'a, T: 'a>(&self, t: T) -> &'a T {
+        unsafe fn dropper<T>(p: *mut ()) {
+            drop(Box::from_raw(p as *mut T));
+        }
+        let raw: *mut T = Box::into_raw(Box::new(t));
+        self.items.borrow_mut().push((raw as *mut (), dropper::<T>));
+        // SAFETY: see `put`; for the per-case arena of the boxed builders the engine clears it only
+        // between cases, when no parser of the previous case is alive any more.
+        unsafe { &*raw }
+    }
+    pub fn clear(&self) {
+        for (p, d) in self.items.borrow_mut().drain(..).rev() {
+            unsafe { d(p) }
+        }
+    }
     pub fn put<'a, I, P>(&self, p: P) -> SP<'a, I>
     where
         I: Input<'a>,
@@ -108,6 +124,18 @@ pub fn set_clone_nodes(on: bool) {
 }
 pub fn clone_nodes() -> bool {
     CLONE_NODES.with(|c| c.get())
+}
+
+thread_local! {
+    static CFG_BY_REF: std::cell::Cell<bool> = const { std::cell::Cell::new(false) };
+}
+/// While on, configurable parsers are used through a reference (`(&p).configure(..)`, the blanket
+/// `ConfigParser for &T`) instead of by value. C13 requires both to behave alike.
+pub fn set_cfg_by_ref(on: bool) {
+    CFG_BY_REF.with(|c| c.set(on));
+}
+pub fn cfg_by_ref() -> bool {
+    CFG_BY_REF.with(|c| c.get())
 }
 
 macro_rules! erase_boxed {
@@ -201,6 +229,45 @@ macro_rules! value_arms_yes {
             G::Lazy(a) => {
                 let a = $sub!(a);
                 $erase!($cx, a.lazy())
+            }
+            G::CtxPair(flags) => {
+                let flags = *flags;
+                type ExC<'a, I> = extra::Full<Rich<'a, <I as Input<'a>>::Token, <I as Input<'a>>::Span>, Insp, <I as Input<'a>>::Token>;
+                let first = any::<I, Ex<'a, I>>();
+                if flags & 4 != 0 {
+                    // iterable parser configured from the context
+                    let base = just::<_, I, ExC<'a, I>>(I::Token::from_sym(0)).repeated();
+                    // (only ConfigParser, not ConfigIterParser, is implemented for &T: always by value here)
+                    let second = base.configure(|cfg, ctx: &I::Token| cfg.exactly((ctx.to_sym() % 3) as usize)).count();
+                    $erase!($cx, first.then_with_ctx(second).map(|(t, n): (I::Token, usize)| {
+                        hook::cb();
+                        Val::Seq(vec![Val::Tok(t.to_sym()), Val::Num(n as u64)])
+                    }))
+                } else {
+                    let base = just::<_, I, ExC<'a, I>>(I::Token::from_sym(0));
+                    macro_rules! finish {
+                        ($second:expr) => {{
+                            let second = $second;
+                            if flags & 2 != 0 {
+                                $erase!($cx, first.ignore_with_ctx(second).map(|u: I::Token| {
+                                    hook::cb();
+                                    Val::Seq(vec![Val::Tok(u.to_sym())])
+                                }))
+                            } else {
+                                $erase!($cx, first.then_with_ctx(second).map(|(t, u): (I::Token, I::Token)| {
+                                    hook::cb();
+                                    Val::Seq(vec![Val::Tok(t.to_sym()), Val::Tok(u.to_sym())])
+                                }))
+                            }
+                        }};
+                    }
+                    if cfg_by_ref() {
+                        let base = $cx.arena.put_any(base);
+                        finish!(base.configure(|cfg, ctx: &I::Token| cfg.seq(ctx.clone())))
+                    } else {
+                        finish!(base.configure(|cfg, ctx: &I::Token| cfg.seq(ctx.clone())))
+                    }
+                }
             }
             G::Any => $erase!($cx, any().map(|t: I::Token| {
                 hook::cb();
@@ -761,7 +828,14 @@ define_builder!(build_input_only_in, BP, Input<'a>, erase_boxed, rec_boxed, valu
 define_builder!(build_sync_in, SP, ValueInput<'a>, erase_sync, rec_none, value_arms_yes, nested_no, caps_arms_no);
 
 thread_local! {
+    /// Per-thread arena behind the boxed builders (by-reference sub-parsers live here). Cleared by the
+    /// pool before every case.
     static NO_ARENA: &'static Arena = Box::leak(Box::new(Arena::default()));
+}
+
+/// Must only be called when no parser built on this thread is alive.
+pub fn case_arena_clear() {
+    NO_ARENA.with(|a| a.clear());
 }
 
 pub fn build<'a, I>(g: &G) -> BP<'a, I>
